@@ -239,6 +239,9 @@ def call(name, a):
                 raise Unspec("escaped brace outside States.Format")
         a = [str(x) if isinstance(x, FmtStr) else x for x in a]
     else:
+        for x in a[1:]:
+            if isinstance(x, FmtStr) and any(k == "litbrace" for k, _ in (x.parts or [])):
+                raise Unspec("escaped brace in a non-template argument of States.Format")
         a = a[:1] + [str(x) if isinstance(x, FmtStr) else x for x in a[1:]]
     if name == "Array":
         return list(a)
